@@ -87,17 +87,19 @@ Theorem C19_validate_obeyed : forall e ex ann' cs c a u now,
 Proof. exact validate_promotes_only_that_one. Qed.
 Print Assumptions C19_validate_obeyed.
 
-(** ... fail: the appended condition marks the replica set failed (which leads to the rollback, C07), unless
-    an earlier Canary-Failed entry that is not true shadows it. *)
-Theorem C19_fail_obeyed : forall cs now,
-  (get_cond cs CT_CanaryFailed = None \/ is_cond_true cs CT_CanaryFailed = true) ->
-  is_cond_true (fail_conds cs now) CT_CanaryFailed = true.
+(** ... fail: after the command the replica set reads as failed in the controllers' own reading (the first condition of the
+    type), whatever conditions it carried - which leads to the rollback (C07) - and no other condition is touched. *)
+Theorem C19_fail_obeyed : forall cs now, is_cond_true (fail_conds cs now) CT_CanaryFailed = true.
 Proof. exact fail_is_seen. Qed.
 Print Assumptions C19_fail_obeyed.
 
-(** The corner kept visible (D13): with an earlier Canary-Failed entry whose status is False the appended
-    entry is shadowed (the first match wins).  Such an entry exists only on a replica set that was failed
-    as a canary, later became active, and is a canary again: not reached by the controller's own histories. *)
-Theorem C19_fail_shadowed_refuted : exists cs now, is_cond_true (fail_conds cs now) CT_CanaryFailed = false.
-Proof. exact fail_shadowed_refuted. Qed.
-Print Assumptions C19_fail_shadowed_refuted.
+Theorem C19_fail_frame : forall cs now t, t <> CT_CanaryFailed -> get_cond (fail_conds cs now) t = get_cond cs t.
+Proof. exact fail_frame. Qed.
+Print Assumptions C19_fail_frame.
+
+(** Repaired defect D13: the command used to append the entry; an earlier Canary-Failed entry whose status is False (a
+    replica set that failed as a canary, became active when the canary strategy was taken out, and is a canary again -
+    reached by the real controllers in the histories of the C19 check) shadowed it: success reported, no rollback. *)
+Theorem C19_fail_shadowed_refuted_before_fix : exists cs now, is_cond_true (fail_conds_before_fix cs now) CT_CanaryFailed = false.
+Proof. exact fail_shadowed_before_fix. Qed.
+Print Assumptions C19_fail_shadowed_refuted_before_fix.
